@@ -1389,5 +1389,49 @@ seed("c01-budget-from-announced-size", "C01", "R-limit-not-early", "data.go",
 seed("c17-chunk-error-replaced", "C17", "R-chunk-error-kept", "conn.go",
 """	if err == nil && n != int64(size) {""", """	if _, rejected := err.(*SMTPError); n != int64(size) && !rejected {""", "a backend's plain error is reported as unexpected EOF")
 
+seed("c12-auth-prefiltered", "C12", "R-cmd-gates-agree", "conn.go",
+"""	if authSession, ok := c.Session().(AuthSession); ok {
+		return authSession.Auth(mech)
+	}
+	return nil, ErrAuthUnknownMechanism""", """	if authSession, ok := c.Session().(AuthSession); ok {
+		if ms := authSession.AuthMechanisms(); len(ms) > 0 && ms[0] != mech {
+			return nil, ErrAuthUnknownMechanism
+		}
+		return authSession.Auth(mech)
+	}
+	return nil, ErrAuthUnknownMechanism""", "the handler filters the mechanism itself: advertised mechanisms other than the first are refused")
+seed("c16-server-dedups-rcpt", "C16", "R-positive-after-callback", "conn.go",
+"""	if err := c.Session().Rcpt(recipient, opts); err != nil {""", """	for _, r := range c.recipients {
+		if r == recipient && len(args) == 0 {
+			c.writeResponse(250, EnhancedCode{2, 1, 5}, fmt.Sprintf("<%v> is already a recipient", recipient))
+			return
+		}
+	}
+	if err := c.Session().Rcpt(recipient, opts); err != nil {""", "a repeated recipient is answered 250 without asking the backend")
+seed("c08-closed-only-if-socket-closes", "C08", "R-no-dispatch-after-close", "conn.go",
+"""	c.closed = true
+	return c.conn.Close()
+}""", """	if err := c.conn.Close(); err != nil {
+		return err
+	}
+	c.closed = true
+	return nil
+}""", "closed is not set when closing the socket fails (TLS close_notify to a vanished peer)")
+seed("c20-close-returns-before-abort", "C20", "R-close-releases", "conn.go",
+"""func (c *Conn) Close() error {
+	c.locker.Lock()
+	defer c.locker.Unlock()
+
+	if c.bdatPipe != nil {""", """func (c *Conn) Close() error {
+	c.locker.Lock()
+	defer c.locker.Unlock()
+
+	c.closed = true
+	if err := c.conn.Close(); err != nil {
+		return err
+	}
+
+	if c.bdatPipe != nil {""", "a failing socket close skips the pipe abort and the Logout")
+
 json.dump(S, open(os.path.join(os.path.dirname(os.path.abspath(__file__)), "bank.json"), "w"), indent=1)
 print(len(S), "seeds")
